@@ -64,6 +64,11 @@ type outcome struct {
 	monitorProp string
 	monitorSig  string
 	monitorClass string
+	otherMonitor string
+	otherProp    string
+	otherSig     string
+	otherClass   string
+	otherAt      int
 	mismatch    string
 	name        string
 	expected    string
@@ -91,6 +96,10 @@ type clientRec struct {
 	csSeq      uint32
 	sessions   []*session
 	// client view
+	// lastTouch: fake-clock second of the last request that could possibly have renewed the
+	// lease (anything sent by or for the client): an upper bound of the server's lastSeen
+	lastTouch    int64
+	pendingTouch bool
 	confirmed bool
 	dead      bool  // definitely removed (replaced by a re-registration, destroyed, expired and seen so)
 	renewed   bool  // lastRenew is meaningful
@@ -140,6 +149,7 @@ type request struct {
 	holds     bool
 	deferred  *nfsx.Event
 	noRenew   bool
+	enters    bool // 4.0: the compound reaches an operation that calls enter()
 	leaseOf   *clientRec // 4.0: the client whose lease a state-ID based request renews
 }
 
@@ -193,12 +203,24 @@ type run struct {
 	// the request that completed in this step returned an error: it must not leave a leaf
 	// more open than it found it
 	stepFailed  bool
+	stepEntered bool // the request of this step ran the server's enter() (lease expiry)
+	focus       string
 	sharedLO    bool        // some lock-owner has locked one file through two open states (known-finding shape)
 	withhold    *request    // request that just parked in an open: its open event is withheld
 	inject      *nfsx.Event // withheld open event of the request being released
 }
 
 func (r *run) failMonitor(prop, sig, format string, a ...any) {
+	if r.focus != "" && prop != r.focus && !r.panicked {
+		// a monitor of the other property fired: note it and go on looking for a
+		// failing input of the property this run is for
+		if r.out.otherMonitor == "" {
+			r.out.otherMonitor = fmt.Sprintf(format, a...)
+			r.out.otherProp, r.out.otherSig, r.out.otherClass = prop, sig, format+"/"+sig
+			r.out.otherAt = len(r.out.executed)
+		}
+		return
+	}
 	if r.out.monitor == "" {
 		r.out.monitor = fmt.Sprintf(format, a...)
 		r.out.monitorProp = prop
@@ -534,6 +556,8 @@ func (r *run) start(q *request, ops []nfsv4.NfsArgop4) {
 
 // drive runs a request: the real compound plus the model segments.
 func (r *run) drive(q *request, ops []nfsv4.NfsArgop4, pl segPlan) {
+	r.touch(q.c)
+	r.touch(q.leaseOf)
 	r.start(q, ops)
 	parkedNow := !q.returned()
 	final := ""
@@ -625,9 +649,15 @@ func (r *run) complete(q *request, final string) {
 		q.sess.busy[q.slot] = false
 	}
 	if q.holds {
+		// the record was held until now: its lease starts anew at this moment
 		q.c.inflight--
 		q.holds = false
+		if !q.c.dead {
+			q.c.lastTouch = r.now
+		}
 	}
+	r.touch(q.c)
+	r.touch(q.leaseOf)
 	if q.err != nil {
 		r.panicked = true
 		sig := r.panicSig(q.err.Error())
@@ -644,6 +674,9 @@ func (r *run) complete(q *request, final string) {
 		r.failMismatch("C18", "correspondence Model/NfsState.lean <-> nfs4x_program.go (panic)", final, "no panic", "%s: the model reaches a Go panic, the implementation returned normally", r.lastLine)
 	}
 	q.finish(q, final)
+	if q.sess != nil || q.enters {
+		r.stepEntered = true
+	}
 	r.endStep()
 }
 
@@ -860,6 +893,7 @@ func (r *run) endStep() {
 		return
 	}
 	// 2. monitors on the implementation's state and trace
+	r.expireView()
 	r.monitorState()
 	// 3. abstract state
 	if r.drv != nil && !r.modelDead && r.out.mismatch == "" {
@@ -1054,4 +1088,45 @@ func (r *run) resolveFor(acting *clientRec, s *stateRec, msid int) int {
 		return t.sid
 	}
 	return sidForged
+}
+
+// touch: client c sent (or is named by) the request being issued.
+func (r *run) touch(c *clientRec) {
+	if c != nil {
+		c.pendingTouch = true
+	}
+}
+
+// expireView: "completely once the client's lease has expired". A record that
+// is not executing any request and for which nothing was sent for more than a
+// lease time is expired by the next request of anybody that enters the server;
+// from then on none of its state may survive (the client view forgets it, so the
+// ledger and lock monitors demand that the server did).
+func (r *run) expireView() {
+	var recs []*clientRec
+	for _, c := range r.byShort {
+		recs = append(recs, c)
+	}
+	sort.Slice(recs, func(i, j int) bool { return recs[i].shortID < recs[j].shortID })
+	for _, c := range recs {
+		if r.stepEntered && !c.dead && c.inflight == 0 && r.now-c.lastTouch > leaseSecs {
+			hadState := false
+			for _, s := range r.states {
+				if s.c == c && !s.closed {
+					hadState = true
+				}
+			}
+			if hadState {
+				r.out.flags["expired-with-state"] = true
+			}
+			r.clientGone(c)
+		}
+		if c.pendingTouch {
+			c.pendingTouch = false
+			if !c.dead {
+				c.lastTouch = r.now
+			}
+		}
+	}
+	r.stepEntered = false
 }
